@@ -24,48 +24,7 @@ func (s *Server) RestoreDBs(dbs []map[string]*Obj) {
 	}
 }
 
-func (o *Obj) Clone() *Obj {
-	c := *o
-	if o.Str != nil {
-		c.Str = append([]byte(nil), o.Str...)
-	}
-	if o.Hash != nil {
-		c.Hash = make(map[string][]byte, len(o.Hash))
-		for k, v := range o.Hash {
-			c.Hash[k] = append([]byte(nil), v...)
-		}
-	}
-	if o.List != nil {
-		c.List = make([][]byte, len(o.List))
-		for i, v := range o.List {
-			c.List[i] = append([]byte(nil), v...)
-		}
-	}
-	if o.Set != nil {
-		c.Set = make(map[string]struct{}, len(o.Set))
-		for k := range o.Set {
-			c.Set[k] = struct{}{}
-		}
-	}
-	if o.ZSet != nil {
-		c.ZSet = make(map[string]float64, len(o.ZSet))
-		for k, v := range o.ZSet {
-			c.ZSet[k] = v
-		}
-	}
-	if o.Stream != nil {
-		st := *o.Stream
-		st.Entries = append([]StreamEntry(nil), o.Stream.Entries...)
-		if o.Stream.Groups != nil {
-			st.Groups = map[string]string{}
-			for k, v := range o.Stream.Groups {
-				st.Groups[k] = v
-			}
-		}
-		c.Stream = &st
-	}
-	return &c
-}
+// Obj.Clone: see restore.go (deep copy including streams).
 
 // SetHash plants a hash directly into the keyspace (harness set-up).
 func (s *Server) SetHash(db int, key string, fields map[string]string) {
